@@ -276,6 +276,9 @@ def handle(cmd, args):
     if cmd == 'deser':
         from harness.py import py_track
         return py_track.deser(args)
+    if cmd == 'deser-ux':
+        from harness.py import py_track
+        return py_track.deser(args, True, typed=False)
     if cmd == 'deser-x':
         from harness.py import py_track
         return py_track.deser(args, True)
